@@ -56,6 +56,31 @@ def fresh(prefix, sort=V):
     return z3.Const("%s!%d" % (prefix, next(_counter)), sort)
 
 
+_CTOR_KIND = {"mk_str": K_STR, "mk_int": K_INT, "mk_bool": K_BOOL, "mk_float": K_FLOAT, "mk_none": K_NONE}
+
+
+def static_kind(t):
+    if z3.is_app(t):
+        return _CTOR_KIND.get(t.decl().name())
+    return None
+
+
+def kd(t, k):
+    """kind(t) == k, folded when t is a constructor application"""
+    sk = static_kind(t)
+    if sk is not None:
+        return z3.BoolVal(sk == k)
+    return kind(t) == k
+
+
+def fresh_fn(prefix, args, sort=V):
+    """A fresh value depending on the enclosing loop indices `args` (skolem function)."""
+    if not args:
+        return fresh(prefix, sort)
+    f = z3.Function("%s!%d" % (prefix, next(_counter)), *([a.sort() for a in args] + [sort]))
+    return f(*args)
+
+
 def IntV(n):
     return z3.IntVal(n)
 
@@ -65,6 +90,9 @@ def StrV(s):
 
 
 def is_kind(v, *ks):
+    sk = static_kind(v)
+    if sk is not None:
+        return z3.BoolVal(sk in ks)
     return z3.Or([kind(v) == k for k in ks]) if len(ks) > 1 else kind(v) == ks[0]
 
 
@@ -137,6 +165,12 @@ def json_axioms():
                 patterns=[z3.MultiPattern(isjson(v), lget(v, i))]))
     A(z3.ForAll([v, i], z3.Implies(z3.And(isjson(v), kind(v) == K_DICT, 0 <= i, i < dlen(v)), isjson(dval(v, i))),
                 patterns=[z3.MultiPattern(isjson(v), dval(v, i))]))
+    s_ = z3.String("s")
+    b_ = z3.Bool("b")
+    A(z3.ForAll([s_], isjson(mk_str(s_)), patterns=[mk_str(s_)]))
+    A(z3.ForAll([i], isjson(mk_int(i)), patterns=[mk_int(i)]))
+    A(z3.ForAll([b_], isjson(mk_bool(b_)), patterns=[mk_bool(b_)]))
+    A(isjson(mk_none))
     # well-founded size
     A(z3.ForAll([v], size(v) >= 1, patterns=[size(v)]))
     A(z3.ForAll([v, i], z3.Implies(z3.And(kind(v) == K_LIST, 0 <= i, i < llen(v)), size(lget(v, i)) < size(v)),
@@ -241,6 +275,32 @@ def needed_groups(formulas, extra_groups=()):
         if x not in g:
             g.append(x)
     return g
+
+
+def _split_range_forall(q):
+    """ForAll([i], Implies(And(lo-cond, hi-cond), body)) -> (lo, n, body_with_var) or None"""
+    if not (z3.is_quantifier(q) and q.is_forall() and q.num_vars() == 1 and q.var_sort(0) == I):
+        return None
+    b = q.body()
+    if not (z3.is_app(b) and b.decl().kind() == z3.Z3_OP_IMPLIES):
+        return None
+    rng, body = b.arg(0), b.arg(1)
+    return rng, body
+
+
+def pointwise_iff(lhs, rhs):
+    """A goal that implies (lhs <=> rhs) and is easier for the solver when both sides are bounded
+    universal quantifications over the same index range: forall i. range => (A(i) <=> B(i)).
+    Returns None when the shapes do not match."""
+    a, b = _split_range_forall(lhs), _split_range_forall(rhs)
+    if a is None or b is None:
+        return None
+    i = fresh("pw", I)
+    ra, ba = z3.substitute_vars(a[0], i), z3.substitute_vars(a[1], i)
+    rb, bb = z3.substitute_vars(b[0], i), z3.substitute_vars(b[1], i)
+    inner = pointwise_iff(ba, bb)
+    core = inner if inner is not None else (ba == bb)
+    return z3.And(z3.ForAll([i], ra == rb), z3.ForAll([i], z3.Implies(ra, core)))
 
 
 class Result:
